@@ -29,6 +29,10 @@ func VerifConvertZToMinAltitudekey(inputIndex int64, inputZoom int64, outputZoom
 	return convertZToMinAltitudekey(inputIndex, inputZoom, outputZoom, zBaseExponent, zBaseOffset)
 }
 
+func VerifConvertZToMaxAltitudekey(inputIndex int64, inputZoom int64, outputZoom int64, zBaseExponent int64, zBaseOffset int64) (int64, error) {
+	return convertZToMaxAltitudekey(inputIndex, inputZoom, outputZoom, zBaseExponent, zBaseOffset)
+}
+
 func VerifValidateIndexExists(inputIndex int64, inputZoom int64, minValueIsNegative bool) bool {
 	_, ok := validateIndexExists(inputIndex, inputZoom, minValueIsNegative)
 	return ok
